@@ -323,6 +323,45 @@ pub fn run(args: &Args) -> i32 {
         let b = adc_packet(n, 1, (n + if d[2] == 0 { 2 } else { 10 }) as u16, f & 0xFFF, f & 0x1000 != 0, f & 0x2000 != 0, 0, f & 0xC000);
         check_adc(&b, loc, true);
     });
+    if thorough {
+        // the complete product of the two 16-bit words that drive the suppression arithmetic: requested_samples x footer
+        // word (keep_last, keep_bit, suppression, unused bits), for a 64- and a 65-sample packet. One case = one value of
+        // requested_samples; the 65536 footer words are patched into the same buffer (inputs distinct by construction).
+        // Fast path: accept/reject and the arithmetic-carrying accessors; any disagreement goes through check_adc.
+        rep.run("requested-x-footer-product", 65536 * 2, 60, true, "all 2^32 pairs (requested_samples, footer word) x sample count {64, 65}: accept/reject and keep_last / keep_bit / suppression / baseline / waveform length against the reference (one case = 65536 footer words)", |idx, loc| {
+            let n = 64 + (idx / 65536) as usize;
+            let mut b = adc_packet(n, 1, (idx % 65536) as u16, 0, false, false, 0, 0);
+            let fpos = b.len() - 4;
+            let mut acc = 0u64;
+            let mut dig = 0u64;
+            for f in 0..=65535u16 {
+                b[fpos..fpos + 2].copy_from_slice(&f.to_be_bytes());
+                let real = match guard(|| AdcV3Packet::try_from(&b[..]).ok().map(|p| (p.waveform().len(), p.keep_last(), p.keep_bit(), p.is_suppression_enabled(), p.suppression_baseline(), p.requested_samples()))) {
+                    Ok(r) => r,
+                    Err(_) => {
+                        check_adc(&b, loc, true);
+                        continue;
+                    }
+                };
+                let rf = ref_adc_decode(&b).map(|r| (r.waveform.len(), r.keep_last as usize, r.keep_bit, r.suppression, r.baseline, r.requested as usize));
+                if real != rf {
+                    let before = loc.violations_len();
+                    check_adc(&b, loc, true);
+                    if loc.violations_len() == before {
+                        loc.violation("adc:fast-path-disagreement", json!({"input": hex(&b), "real": format!("{real:?}"), "reference": format!("{rf:?}")}));
+                    }
+                    continue;
+                }
+                if real.is_some() {
+                    acc += 1;
+                }
+                dig = dig.wrapping_add(hash64(&(f, real.is_some())));
+            }
+            loc.bulk(acc, acc, "accept");
+            loc.bulk(65536 - acc, 65536 - acc, "reject");
+            loc.add_digest(dig);
+        });
+    }
     rep.run("baseline-sweep", 65536 * SAMPLE_KINDS, 20, true, "all 65536 footer baseline values x 8 sample contents (64 samples)", |idx, loc| {
         let d = unrank(idx, &[65536, SAMPLE_KINDS]);
         let mut b = adc_packet(64, d[1], 66, 0, false, false, 0, 0);
